@@ -88,14 +88,27 @@ func run(t *testing.T, cs caseSpec, onLeak func(string)) (key, desc, harness str
 		}()
 		m0 := n.C.Metrics()
 		base := ledger{m0.DataMsgInflightCount(), m0.DataMsgSendCount(), m0.DataMsgRecvCount(), m0.DataMsgErrCount(), 0}
-		var want ledger
 		peerSys := byte(0)
 		type waiting struct {
 			sys  [4]byte
 			call *e2.Call
 		}
 		var open []waiting
+		var recvMsg func() ([4]byte, string)
+		var want ledger
 		sendBlocks := func(blocks []e4.Block, dupLast bool) string {
+			// the line must be idle before the peer bids: a transmission the library still has to make
+			// (an S9 notice that the line engine starts a poll later than this harness looked) is taken
+			// first — in a contention the equipment library would rightly insist on sending first
+			for k := 0; k < 3; k++ {
+				if pe.BidPending() {
+					if _, s := recvMsg(); s != "" {
+						return s
+					}
+					want.send++
+				}
+				w.Advance(12 * time.Millisecond)
+			}
 			for i, b := range blocks {
 				times := 1
 				if dupLast && i == len(blocks)-1 {
@@ -118,7 +131,7 @@ func run(t *testing.T, cs caseSpec, onLeak func(string)) (key, desc, harness str
 			}
 			return ""
 		}
-		recvMsg := func() ([4]byte, string) {
+		recvMsg = func() ([4]byte, string) {
 			var sys [4]byte
 			for k := 0; ; k++ {
 				if !pe.BidPending() {
